@@ -10,9 +10,9 @@ def scratch_dir(tag='vp'):
     return tempfile.mkdtemp(prefix='%s_%d_' % (tag, os.getpid()), dir=base)
 
 
-def run_verus(mirror_path, modules=None, rlimit=None, threads=16, extra=None, timeout=3000):
+def run_verus(mirror_path, modules=None, rlimit=None, threads=16, extra=None, timeout=3000, multiple_errors=12):
     cmd = [VERUS, os.path.basename(mirror_path), '--output-json', '--time-expanded', '--error-format=json',
-           '--multiple-errors', '12', '--num-threads', str(threads)]
+           '--multiple-errors', str(multiple_errors), '--num-threads', str(threads)]
     if rlimit:
         cmd += ['--rlimit', str(rlimit)]
     for m in (modules or []):
